@@ -231,6 +231,7 @@ theorem sim_mw (raw : List Bytes) (cfg : Cfg)
         ((c1'.gens = [] ∧ c1'.st.ntok = st.ntok ∧ token = q.ck ∧ s.liveAt token = true ∧
             ∃ d0, lookup st.sess W = some (some ⟨token, d0⟩)) ∨
          (c1'.gens = [token] ∧ c1'.st.ntok = st.ntok + 1 ∧ token = gen st.ntok)) →
+        (cfg.single = true → isSafe q.method = false → c1'.gens = [token]) →
         ∃ s', specReq (specConfig cfg.backend cfg.ext cfg.single cfg.idle raw) s q
             (obsOf cfg (mwSave c2).st (assemble (mwSave c2) r2)) = .ok s' ∧
           s'.now = (mwSave c2).st.now ∧ IssuedOK gen (mwSave c2).st.ntok s'.issued ∧
@@ -240,7 +241,7 @@ theorem sim_mw (raw : List Bytes) (cfg : Cfg)
       · subst htok
         rw [finish_fresh] at hf
         refine H _ _ hf hc1now hc1sess hmw1 (by rw [hc1fg, hfg0]) (by rw [hc1fs, hfs0]) (by rw [hc1fd, hfd0]) ?_ (hgen _)
-          (Or.inr ⟨by simp [hc1g], by simp [hc1ntok], by rw [hc1ntok]⟩)
+          (Or.inr ⟨by simp [hc1g], by simp [hc1ntok], by rw [hc1ntok]⟩) (fun _ _ => by simp [hc1g])
         show IssuedOK gen (c1.st.ntok + 1) (s.issued ++ (c1.gens ++ [gen c1.st.ntok]))
         rw [hc1g, hc1ntok]
         exact issuedOK_append gen _ _ hI
@@ -248,9 +249,14 @@ theorem sim_mw (raw : List Bytes) (cfg : Cfg)
         obtain ⟨hk1, d0, hheld, hle⟩ := hkeptfact htok
         obtain ⟨hl1, hl2⟩ := held_spec gen cfg.idle st.ntok st.now st.sess s hnow hI hS W q.ck d0 hheld hle
         refine H _ _ hf hc1now hc1sess hmw1 (by rw [hc1fg, hfg0]) (by rw [hc1fs, hfs0]) (by rw [hc1fd, hfd0]) ?_ htok
-          (Or.inl ⟨hc1g, hc1ntok, hk1, by rw [hk1]; exact hl1, d0, by rw [hk1]; exact hheld⟩)
-        rw [hc1g, hc1ntok, List.append_nil]; exact hI
-    intro c1' token hft hn1 hss1 hmw1' hfg1 hfs1 hfd1 hI1 hne hT
+          (Or.inl ⟨hc1g, hc1ntok, hk1, by rw [hk1]; exact hl1, d0, by rw [hk1]; exact hheld⟩) ?_
+        · rw [hc1g, hc1ntok, List.append_nil]; exact hI
+        · intro hsg hu
+          exfalso
+          dsimp only [DecMw] at hdec
+          simp only [hu, Bool.false_eq_true, if_false, hsg, if_true] at hdec
+          exact htok hdec.2.2.2.1
+    intro c1' token hft hn1 hss1 hmw1' hfg1 hfs1 hfd1 hI1 hne hT hSU
     obtain ⟨hc2st, hc2g, hc2fg, hc2fs, hc2fd, hpass, hearly, hshape⟩ :=
       tail_mw cfg sgen q c1' W slot1 token hb hmw1' c2 r2 hft
     -- the slot the request ends with
@@ -317,7 +323,8 @@ theorem sim_mw (raw : List Bytes) (cfg : Cfg)
           rw [hmw2, hn1] at hm; cases hm; rfl
         subst hsF
         refine sess_shapeA gen hinj cfg.idle st.ntok c1'.st.ntok st.now _ rfl s hnow st.sess _ hS q o token W live1
-          hI' hlook hW hosc (hock.trans hrck) hne hL1 hTO (hnodel.elim Or.inl (fun h => Or.inr (Or.inl h))) ?_
+          hI' hlook hW hosc (hock.trans hrck) hne hL1 hTO (hnodel.elim Or.inl (fun h => Or.inr (Or.inl h)))
+          (fun h1 h2 => hog.trans (hSU (by simpa [specConfig] using h1) h2)) ?_
         intro _ _
         rw [← hoeq]
         refine probeHas_sess cfg _ _ W token (st.now + cfg.idle) _ hbs ?_ ?_
